@@ -1,6 +1,7 @@
 import SamVerif.Props.C06
+import SamVerif.Props.C06b
 /-! Axiom audit of every C06 property theorem (parsed by vlib/common.py). -/
-open SamVerif.IntRange SamVerif.Assign
+open SamVerif.IntRange SamVerif.Assign SamVerif.Gates
 #print axioms literal_error_iff
 #print axioms errors_aligned
 #print axioms above_range_always_rejected
@@ -21,3 +22,13 @@ open SamVerif.IntRange SamVerif.Assign
 #print axioms arity_gate
 #print axioms call_arity_gate
 #print axioms assignable_reflexive
+#print axioms member_resolved_iff
+#print axioms private_member_never_resolved
+#print axioms private_field_never_visible_outside_class
+#print axioms private_class_never_resolved
+#print axioms import_gate
+#print axioms tyarg_arity_gate
+#print axioms explicit_tyarg_gate
+#print axioms member_conforms_iff
+#print axioms conformance_exact
+#print axioms bound_gate
